@@ -128,6 +128,7 @@ class Parameter(AtInstantLike):
         clone = commons.empty_clone(self)
         clone.__dict__ = self.__dict__.copy()
 
+        clone.values_history = clone
         clone.metadata = copy.deepcopy(self.metadata)
         clone.values_list = [
             parameter_at_instant.clone() for parameter_at_instant in self.values_list
